@@ -668,8 +668,6 @@ def _squeeze_by_scaling(bias, heights, monotonicity, output_min, output_max,
     Projected bias and heights.
   """
   if monotonicity == -1:
-    if output_min_constraints == BoundConstraintsType.NONE:
-      return bias, heights
     # Reduce computation of projection of decreasing function to computation of
     # projection of increasing function by multiplying everything by -1 and
     # swapping maximums and minimums.
@@ -682,18 +680,22 @@ def _squeeze_by_scaling(bias, heights, monotonicity, output_min, output_max,
         output_min_constraints=output_max_constraints,
         output_max_constraints=output_min_constraints)
     return -bias, -heights
+  # The lowest output of an increasing calibrator is its bias. Moving the bias
+  # into the bounds keeps both monotonicity and convexity.
+  if output_min_constraints != BoundConstraintsType.NONE:
+    bias = tf.maximum(bias, output_min)
   if output_max_constraints == BoundConstraintsType.NONE:
     return bias, heights
+  bias = tf.minimum(bias, output_max)
 
+  # Shrink heights only if they do not fit into what is left below output_max,
+  # keeping everything strictly unchanged otherwise.
   delta = output_max - bias
-  # For better stability use tf.where rather than the more standard approach:
-  # heights *= tf.reduce_sum(heights) / max(delta, eps)
-  # in order to keep everything strictly unchanged for small deltas, rather than
-  # increase heights by factor 1/eps and still don't meet constraints.
-  scaling_factor = tf.where(delta > 0.001,
-                            tf.reduce_sum(heights, axis=0) / delta,
+  sum_heights = tf.reduce_sum(heights, axis=0)
+  scaling_factor = tf.where(sum_heights > delta,
+                            tf.math.divide_no_nan(delta, sum_heights),
                             tf.ones_like(delta))
-  heights = heights / tf.maximum(scaling_factor, 1.0)
+  heights = heights * scaling_factor
   return bias, heights
 
 
